@@ -219,7 +219,7 @@ func c11(c *Ctx) {
 	}
 	o.WriteFile("Tab.v", commonTab(c)+"From Avo Require Import Model.Attr.\nDefinition names : names_t := "+cList(nameRows)+".\n")
 	o.Stage("Tab.v")
-	o.Oblig("Tab.pass_order_ok", "Tab.info_constants_ok")
+	o.Oblig("Tab.info_constants_ok")
 	rng := NewRNG(c.Seed + 1100)
 	n := 160
 	if c.Thorough() {
